@@ -28,7 +28,7 @@ from . import dailyref as R
 
 A_LAYOUTS_DOC = "one sub-model / weekday+weekend / two seasons; present days share one symbolic temperature"
 EXPLANATION = "C06: (a) daily predict index/finiteness around DST; (b) hourly 24-slot normalisation and its inverse with symbolic features/predictions."
-ZONES_QUICK = ["US/Pacific", "Europe/London", "Australia/Sydney", "America/Santiago", "America/Havana", "America/St_Johns"]
+ZONES_QUICK = ["US/Pacific", "Europe/London", "Australia/Sydney", "America/Santiago", "America/Havana", "America/St_Johns", "America/Nuuk"]
 ZONES_THOROUGH = ZONES_QUICK + ["US/Eastern", "Europe/Berlin", "Pacific/Auckland", "Asia/Tehran", "Africa/Casablanca", "America/Sao_Paulo",
                                 "Asia/Amman", "Asia/Beirut", "America/Asuncion", "Australia/Adelaide", "Asia/Kolkata", "UTC"]
 BOUNDS = {"quick": dict(zones=ZONES_QUICK, years=[2021], days_around_transition=3, daily_rows=5, daily_layouts=A_LAYOUTS_DOC),
@@ -60,7 +60,9 @@ def transitions(zone, years):
     return sorted(set(out))
 
 
-def _years(tier, part):
+def _years(tier, part, zone=None):
+    if zone == "America/Nuuk" and tier != "thorough":
+        return [2024]  # since 2024 this zone skips 23:00 (the last hour of the day) in spring
     if tier == "thorough":
         return list(range(2000, 2038)) if part == "b" else list(range(2019, 2024))
     return [2021]
@@ -125,14 +127,14 @@ def expected_slots(idx):
 
 
 def run_b(case: Case, zone, tier):
-    years = _years(tier, "b")
+    years = _years(tier, "b", zone)
     trs = transitions(zone, years)
     if not trs:
         case.note(f"{zone}: no whole-hour transitions in {years[0]}-{years[-1]}")
         case.ground(True, "zone without DST: nothing to normalise")
         return
     # the transition day is the middle, the first and the last day of the span
-    work = [(d, b) for d in trs for b in ((1, 0, 2, "skip") if (tier == "quick" or d[:4] in ("2021", "2011")) else (1,))]
+    work = [(d, b) for d in trs for b in ((1, 0, 2, "skip") if (tier == "quick" or d[:4] in ("2021", "2011") or (zone == "America/Nuuk" and d[:4] == "2024")) else (1,))]
     for date, before in work:
         idx = span_index(zone, date, before)
         n = len(idx)
@@ -296,7 +298,7 @@ A_LAYOUTS = ["single", "wdwe-flat", "season"]
 
 def run_a(case: Case, zone, tier):
     n = 6 if tier == "thorough" else 5
-    trs = transitions(zone, _years(tier, "a")) or ["2021-06-15"]
+    trs = transitions(zone, _years(tier, "a", zone)) or ["2021-06-15"]
     case.inputs = [z3.Real("T0")] + [z3.Real(f"o{i}") for i in range(n)]
     for date in trs:
         try:
@@ -407,7 +409,7 @@ def replay_hourly_predict(inp):
 
 
 def run_c(case: Case, zone, tier):
-    trs = transitions(zone, [2021] if tier == "quick" else [2011, 2021])
+    trs = transitions(zone, _years(tier, "c", zone) if tier == "quick" else [2011, 2021] + ([2024] if zone == "America/Nuuk" else []))
     if not trs:
         case.ground(True, "zone without DST: nothing to normalise")
         return
